@@ -38,7 +38,10 @@ pub fn stark_verify<Layout: LayoutTrait>(
         witness.composition_witness.to_owned(),
     )?;
 
-    // Compute query points.
+    // Compute query points (queries_to_points asserts on larger domains).
+    if stark_domains.log_eval_domain_size > Felt::from(64) {
+        return Err(Error::DomainTooLarge);
+    }
     let points = queries_to_points(queries, stark_domains);
 
     // Evaluate the FRI input layer at query points.
@@ -77,6 +80,9 @@ pub enum Error {
 
     #[error("TableDecommit Error")]
     TableDecommitError(#[from] swiftness_commitment::table::decommit::Error),
+
+    #[error("evaluation domains larger than 2**64 are not supported")]
+    DomainTooLarge,
 }
 
 #[cfg(not(feature = "std"))]
@@ -93,4 +99,7 @@ pub enum Error {
 
     #[error("TableDecommit Error")]
     TableDecommitError(#[from] swiftness_commitment::table::decommit::Error),
+
+    #[error("evaluation domains larger than 2**64 are not supported")]
+    DomainTooLarge,
 }
